@@ -204,7 +204,11 @@ def evalCase (s : S) (d : Doc) : IO Unit := do
   | .ok (tw, calls) =>
     let m := tw.fam s.cfg.tab
     -- by-construction certificates (C01 token text, C06 comment text)
-    if s.cfg.reorder then fields := "tok=skip-reorder" :: fields
+    if s.cfg.reorder then
+      if tokensCertifiedR s.cfg.toP t tw then fields := "tok=ok" :: fields
+      else
+        fields := "tok=viol" :: fields
+        extra := s!"TOKDIFF (reorder) good={tw.good} doc={oneLine tw.toks} tree={oneLine (specToks (reorderTree s.cfg.toP (prepare t)))}" :: extra
     else if tokensCertified t tw then fields := "tok=ok" :: fields
     else
       fields := "tok=viol" :: fields
@@ -221,7 +225,11 @@ def evalCase (s : S) (d : Doc) : IO Unit := do
     else
       fields := "prose=viol" :: fields
       extra := s!"PROSEDIFF good={tw.good} doc={oneLine tw.prose} tree={oneLine (specProse (prepare t))}" :: extra
-    if s.cfg.reorder then fields := "lit=skip-reorder" :: fields
+    if s.cfg.reorder then
+      if literalsCertifiedR s.cfg.toP t tw then fields := "lit=ok" :: fields
+      else
+        fields := "lit=viol" :: fields
+        extra := s!"LITDIFF (reorder) good={tw.good} doc={oneLine tw.lits} tree={oneLine (specLit (reorderTree s.cfg.toP (prepare t)))}" :: extra
     else if literalsCertified t tw then fields := "lit=ok" :: fields
     else
       fields := "lit=viol" :: fields
